@@ -3,6 +3,7 @@ import EaselModel.Generated.Alphabets
 import EaselModel.Gencode.NcbiTables
 import EaselModel.Gencode.Lemmas2
 import EaselModel.Gencode.OrfLemmas3
+import EaselModel.Gencode.OrfDecl2
 import EaselModel.Alphabet.Iupac
 /-! # C17 — property theorems (statements + glue only; lemmas live in Gencode/*.lean)
 
@@ -156,6 +157,22 @@ theorem orf_stream_eq_spec (nt aa : Alphabet) (g : Gencode) (cfg : Cfg) (hn : Nt
         frameOrfs nt aa g cfg (dirOf isRev) (if isRev then (d.length : Int) else 1) d f ++
           recsOf w0.c.out (f + 1 + labelOff isRev) :=
   runStrand_spec nt aa g cfg hn hg w0 isRev d hv k ks hk hs
+
+/-- the per-frame ORF list in declarative form (see `declFrame`, `splitStops`, `segOrf`): **maximal stop-free stretches,
+    cut down to start at their first initiator**, of at least the minimum length. With the default "any sense codon
+    initiates" setting every non-degenerate codon of a stop-free stretch is an initiator, so the ORF is the whole stretch
+    (minus leading codons whose degenerate expansion contains a stop); with `-m`/`-M` it is the initiator-to-stop stretch. -/
+theorem orf_frame_declarative (nt aa : Alphabet) (g : Gencode) (cfg : Cfg) (hn : NtOK nt) (hT : TableOK aa g)
+    (dir p0 : Int) (d : List Nat) (k : Nat) :
+    frameOrfs nt aa g cfg dir p0 d k =
+      (declFrame aa cfg dir
+        (p0 + (((itemsFrom nt aa g dir p0 d).length + (k + 3 - (itemsFrom nt aa g dir p0 d).length % 3) % 3 : Nat) : Int) * dir - dir)
+        (sub k 0 (itemsFrom nt aa g dir p0 d))).reverse :=
+  frameOrfs_declarative nt aa g cfg hn hT dir p0 d k
+
+/-- every built-in table under every initiator setting satisfies the hypothesis `TableOK` of `orf_frame_declarative`
+    (no initiator codon is a stop; M and X are not the stop code) -/
+theorem builtin_tables_ok : ∀ t ∈ T.tables, ∀ g ∈ settings (codeOf t), TableOK A.amino g := by decide +kernel
 
 /-! ## non-vacuity -/
 -- ATGAAATAAATGCCCTAGG in the standard code, any-initiator, minlen 0, top strand, windows 4+5+10:
